@@ -23,6 +23,7 @@ from __future__ import annotations
 import itertools
 import json
 import os
+import random
 import sys
 import time
 import traceback
@@ -33,7 +34,7 @@ from harness import common as C
 KEY_UNDER_PLAIN = 'under-property-plain-default-factory-type'
 
 PRELUDE = '''
-import abc, collections, collections.abc, dataclasses, datetime, typing
+import abc, collections, collections.abc, dataclasses, datetime, functools, typing
 from dataclasses import dataclass
 from dataclass_wizard import property_wizard
 class UL(list): pass
@@ -54,6 +55,31 @@ def field(**kw):
     f = dataclasses.field(**kw)
     FIELDS.append([f, {a: getattr(f, a) for a in FIELD_OPTS}, 'field(%s)' % ', '.join(sorted(kw)), set()])
     return f
+# decorators a user may put on the setter function of a property (below `@x.setter`): while a decorated setter runs, VIA
+# holds one entry per decorator it was entered through; a setter written under k decorators that finds another depth was
+# reached around (some of) them and says so in BYPASS
+VIA = []
+BYPASS = []
+def TRW(fn):
+    """the ordinary way to write a decorator: functools.wraps (sets __wrapped__, copies __name__ / __doc__ / __dict__)"""
+    @functools.wraps(fn)
+    def checked(self, v):
+        VIA.append(fn)
+        try:
+            return fn(self, v)
+        finally:
+            VIA.pop()
+    return checked
+def TRC(fn):
+    """a bare closure: nothing of `fn` is copied but its name"""
+    def inner(self, v):
+        VIA.append(fn)
+        try:
+            return fn(self, v)
+        finally:
+            VIA.pop()
+    inner.__name__ = fn.__name__
+    return inner
 # user-defined subclasses of `property`
 class PS0(property): pass
 class PS1(property):
@@ -435,12 +461,42 @@ def gen_rhs(rng, kinds=('none', 'value', 'fdefault', 'ffactory', 'fempty')):
     return {'field': fs, 'init': True, 'py': 'field(%s)' % fpy}
 
 
-def m_prop(rng, name, settable, props=None):
-    """a property member; `props` (when given) are the classes to write after `@`: property or subclasses of it"""
+SETTER_DECOS = {'wraps': ['TRW'], 'wraps2': ['TRW', 'TRW'], 'closure': ['TRC'], 'mixed': ['TRC', 'TRW']}
+
+
+def m_prop(rng, name, settable, props=None, srng=None):
+    """a property member; `props` (when given) are the classes to write after `@`: property or subclasses of it; `srng`
+    (the case's spelling generator) decides whether the setter function is written under decorators of the user"""
     m = {'k': 'prop', 'n': name, 'settable': settable}
     if props:
         m['py_deco'] = rng.choice(props)
+    if srng is not None and settable and srng.random() < 0.3:
+        m['py_sdeco'] = srng.choice(['wraps', 'wraps', 'wraps', 'wraps2', 'closure', 'mixed'])
     return m
+
+
+# The spelling of the member names of a case comes from a generator of its own (`srng`): the statement is about the
+# declaration styles, a style is defined by which of the two names carries the leading underscore — whatever else the
+# public name looks like (PEP 8 spells a name that would clash with a keyword / builtin with a TRAILING underscore).
+PEP8_NAMES = ['id_', 'type_', 'class_', 'from_', 'in_', 'len_', 'list_', 'p_q', 'x__y', 'a_b_', 'v1_', 'self_']
+
+
+def spell_pub(srng, j, used):
+    """the public name of property field number j"""
+    base = 'p%d' % j
+    if srng is None:
+        return base
+    r = srng.random()
+    if r < 0.45:
+        cand = base
+    elif r < 0.75:
+        cand = base + srng.choice(['_', '_', '__', '_x', '_x_', '_0_'])
+    else:
+        cand = srng.choice(PEP8_NAMES)
+    if cand in used or cand.lstrip('_') in used:
+        cand = base
+    used.add(cand)
+    return cand
 
 
 def m_field(name, ty, rhs):
@@ -457,7 +513,7 @@ STYLES = ['S1', 'S2', 'S3', 'S4', 'S5']
 # S5 S2 plus the IDE helper `_x: T = field(init=False[, default=..])`  (docs/using_field_properties.rst)
 
 
-def gen_styled_class(rng, cname, later_names, strip_defaults_of=None, env=None):
+def gen_styled_class(rng, cname, later_names, strip_defaults_of=None, env=None, srng=None):
     """a class in the documented styles: 1..3 property fields in varying order among ordinary members (up to 4 when the
     case has module-level objects for them to share, see gen_env)"""
     if strip_defaults_of is not None:
@@ -469,8 +525,9 @@ def gen_styled_class(rng, cname, later_names, strip_defaults_of=None, env=None):
     forced_at = dict(zip(rng.sample(range(nprop), len(forced)), forced))
     props = env.get('props')
     slots = []      # (field members, property members, item)
+    used = set()
     for j in range(nprop):
-        pub = 'p%d' % j
+        pub = spell_pub(srng, j, used)
         style = rng.choice(STYLES)
         ty = forced_at[j] if j in forced_at else gen_ty(rng, later_names, env)
         item = {'kind': 'propfield', 'pub': pub, 'style': style, 'ty': ty, 'explicit': None}
@@ -505,7 +562,7 @@ def gen_styled_class(rng, cname, later_names, strip_defaults_of=None, env=None):
             item['helper_ty'] = hty
             fm = [m_field(pub, ty, rhs), helper] if rng.random() < 0.7 else [helper, m_field(pub, ty, rhs)]
         item['prop'] = pname
-        slots.append((fm, [m_prop(rng, pname, True, props)], item))
+        slots.append((fm, [m_prop(rng, pname, True, props, srng)], item))
     # ordinary members
     for j in range(rng.randint(0, 3)):
         r = rng.random()
@@ -531,7 +588,7 @@ def gen_styled_class(rng, cname, later_names, strip_defaults_of=None, env=None):
                 fm = [m_field('_' + name, t_atom('int'), {'lit': 0, 'py': '0'})]
             slots.append((fm, [m_prop(rng, name, False, props)], {'kind': 'ro', 'name': name, 'with_field': with_field}))
         elif r < 0.75:
-            slots.append(([], [m_prop(rng, rng.choice([name, '_' + name]), True, props)], {'kind': 'plainprop', 'name': name}))
+            slots.append(([], [m_prop(rng, rng.choice([name, '_' + name]), True, props, srng)], {'kind': 'plainprop', 'name': name}))
             slots[-1][2]['name'] = slots[-1][1][0]['n']
         elif r < 0.9:
             l = gen_lit(rng)
@@ -604,7 +661,7 @@ def strip_defaults(cls, cname):
 
 # --------------------------------------------------------------------------- wild classes (correspondence only)
 
-def gen_wild_class(rng, cname, later_names, env=None):
+def gen_wild_class(rng, cname, later_names, env=None, srng=None):
     """arbitrary member lists over a tiny name pool: shadowing in every order, colliding properties"""
     env = env or {}
 
@@ -619,6 +676,9 @@ def gen_wild_class(rng, cname, later_names, env=None):
         return gen_rhs(rng, kinds)
 
     pool = ['a', '_a', 'b', '_b']
+    if srng is not None and srng.random() < 0.3:
+        sa, sb = srng.choice(['a', 'a_', 'a__', 'a_x']), srng.choice(['b', 'b_', 'b_0_', 'id_'])
+        pool = [sa, '_' + sa, sb, '_' + sb]
     members = []
     annotated = set()
     for _ in range(rng.randint(1, 7)):
@@ -634,7 +694,7 @@ def gen_wild_class(rng, cname, later_names, env=None):
             l = gen_lit(rng)
             members.append({'k': 'assign', 'n': n, 'r': {'lit': l, 'py': lit_py(l)}})
         elif r < 0.9:
-            members.append(m_prop(rng, n, rng.random() < 0.8, env.get('props')))
+            members.append(m_prop(rng, n, rng.random() < 0.8, env.get('props'), srng))
         else:
             members.append({'k': 'method', 'n': n})
     return {'name': cname, 'styled': False, 'members': members, 'items': []}
@@ -647,10 +707,19 @@ PROP_SRC = '''    @{d}
         return self.__dict__.get('${n}', ABSENT)
 '''
 SETTER_SRC = '''    @{n}.setter
-    def {n}(self, v):
+{decos}    def {n}(self, v):
         LOG.append(('{n}', v))
-        self.__dict__['${n}'] = v
+{guard}        self.__dict__['${n}'] = v
 '''
+
+
+def setter_src(m):
+    decos = SETTER_DECOS.get(m.get('py_sdeco'), [])
+    guard = ''
+    if decos:
+        # this function is the setter only together with its decorators
+        guard = "        if len(VIA) != %d: BYPASS.append(('%s', len(VIA), %d))\n" % (len(decos), m['n'], len(decos))
+    return SETTER_SRC.format(n=m['n'], decos=''.join('    @%s\n' % d for d in decos), guard=guard)
 
 
 def render_class(cls, decorator=True, pre=True):
@@ -670,7 +739,7 @@ def render_class(cls, decorator=True, pre=True):
         elif k == 'prop':
             body.append(PROP_SRC.format(n=n, d=m.get('py_deco', 'property')).rstrip('\n'))
             if m['settable']:
-                body.append(SETTER_SRC.format(n=n).rstrip('\n'))
+                body.append(setter_src(m).rstrip('\n'))
             body.append('    REG.setdefault(%r, []).append(%s)' % (cls['name'] + '.' + n, n))
         elif k == 'method':
             body.append('    def %s(self):\n        return 1' % n)
@@ -737,8 +806,11 @@ def descr(v, g, reg):
                           'factory': 'MISSING' if v.default_factory is dataclasses.MISSING else factory_tok(v.default_factory, g)},
                 'init': v.init}
     if isinstance(v, property):
+        # wrapped: the setter is a functools-wrapper that the class body did not put there itself (a setter the user wrote
+        # under a functools.wraps-based decorator carries __wrapped__ from the start)
+        own = any(v.fset is p.fset for ps in reg.values() for p in ps if isinstance(p, property))
         return {'prop': v.fget.__name__, 'settable': v.fset is not None,
-                'wrapped': v.fset is not None and hasattr(v.fset, '__wrapped__')}
+                'wrapped': v.fset is not None and hasattr(v.fset, '__wrapped__') and not own}
     if isinstance(v, types.FunctionType):
         return {'method': v.__name__}
     return {'lit': tok(v, g)}
@@ -956,6 +1028,9 @@ def observe_created(cls, g, o, names_before):
             asg.append({'log': [[slot(d), tok(x, g)] for d, x in LOG], 'get': got})
         r['assign'] = asg
         o['runs'].append(r)
+    # setter functions that were reached around the decorators the user wrote them under (constructor or assignment)
+    o['bypass'] = sorted(set(g['BYPASS']))
+    del g['BYPASS'][:]
     return o
 
 
@@ -1354,7 +1429,9 @@ def law_impl(pys):
 
 # --------------------------------------------------------------------------- run
 
-def gen_case(rng, i):
+def gen_case(rng, i, seed=0):
+    # the spelling of the case (names of the members, decorators on the setter functions) has a generator of its own
+    srng = random.Random('C16:%s:%d:spelling' % (seed, i))
     r = rng.random()
     n = rng.choice([1, 1, 2, 3])
     twins = 0.62 <= r < 0.72
@@ -1376,18 +1453,18 @@ def gen_case(rng, i):
 
     if r < 0.62:
         for k, nm in enumerate(names):
-            add(k, lambda e: gen_styled_class(rng, nm, names[k:], env=e))
+            add(k, lambda e: gen_styled_class(rng, nm, names[k:], env=e, srng=srng))
         kind = 'styled'
     elif twins:
         # twins: a class with explicit defaults, then the same class with the defaults removed
-        add(0, lambda e: gen_styled_class(rng, 'C0', ['C1', 'C2'], env=e))     # names unresolvable in C0 and in its twin C1
+        add(0, lambda e: gen_styled_class(rng, 'C0', ['C1', 'C2'], env=e, srng=srng))     # names unresolvable in C0 and in its twin C1
         add(1, lambda e: gen_styled_class(rng, 'C1', [], strip_defaults_of=classes[0]))
         if n == 3:
-            add(2, lambda e: gen_styled_class(rng, 'C2', ['C2'], env=e))
+            add(2, lambda e: gen_styled_class(rng, 'C2', ['C2'], env=e, srng=srng))
         kind = 'styled'
     else:
         for k, nm in enumerate(names):
-            add(k, lambda e: gen_wild_class(rng, nm, names[k:], env=e) if rng.random() < 0.8 else gen_styled_class(rng, nm, names[k:], env=e))
+            add(k, lambda e: gen_wild_class(rng, nm, names[k:], env=e, srng=srng) if rng.random() < 0.8 else gen_styled_class(rng, nm, names[k:], env=e, srng=srng))
         kind = 'wild'
     return {'kind': kind, 'classes': classes}
 
@@ -1413,7 +1490,12 @@ def run(ctx: C.Ctx):
                 'declared options after each class); names used in string annotations (FTk, typing.List[FTk], Annotated / Union / '
                 'Optional over FTk) that are unbound / bound / re-bound / deleted between the classes of a case (30% of the cases '
                 'with >= 2 classes; the same text in every class mostly); properties written with user-defined subclasses of '
-                '`property` and abc.abstractproperty (30% of the cases); wild: arbitrary '
+                '`property` and abc.abstractproperty (30% of the cases); spelling (a generator of its own per case): public names '
+                'of the property fields with interior / trailing underscores and the PEP 8 spellings id_, type_, class_, .. (the '
+                'underscored partner is "_" + name), wild pools a_/_a_/b_0_/_b_0_ likewise; setter functions written under '
+                'decorators of the user below `@x.setter` (functools.wraps-based — carrying __wrapped__ —, stacked, bare closures; '
+                '30% of the settable properties): every call of the setter function by the constructor (default, argument) or by '
+                'an assignment must have entered through all of its decorators; wild: arbitrary '
                 'member lists over names a/_a/b/_b (shadowing, colliding properties) for model correspondence only. Per class: '
                 'every subset of the optional constructor arguments (<= 4 optional, else empty/full/(co-)singletons), a missing '
                 'required argument, an unexpected keyword, a property object as argument; two instances per argument set; later '
@@ -1473,7 +1555,7 @@ def run(ctx: C.Ctx):
         if ctx.only is None and time.time() - t0 > budget:
             ctx.notes['stopped_after_cases'] = i
             break
-        case = gen_case(rng, i)
+        case = gen_case(rng, i, ctx.seed)
         if not ctx.begin_case(i):
             continue
         ctx.seen(case['kind'], case, nontrivial=nontrivial(case))
@@ -1489,7 +1571,16 @@ def run(ctx: C.Ctx):
                 # its options as declared (else what a later user of the object gets depends on who came first)
                 ctx.fail(case['kind'], case, '%s: creating the class changed %s of the user\'s %s object from %s to %s'
                          % (cls['name'], fm[1], fm[0], fm[2], fm[3]), detail=dict(src=render_case(case)))
+            for bp in obs.get('bypass', ()):
+                # the setter of a property is what the user attached to it: the function together with its decorators
+                ctx.fail(case['kind'], case, '%s: the setter function of property %s, written under %d decorator(s), was called with %d of '
+                         'them entered: a value (default, constructor argument or assignment) did not pass through the setter the '
+                         'user attached to the property' % (cls['name'], bp[0], bp[2], bp[1]), detail=dict(src=render_class(cls)))
             for m in cls['members']:
+                if m['k'] == 'prop' and m.get('py_sdeco'):
+                    ctx.count('dim:decorated-setter')
+                if m['k'] == 'prop' and m['n'].endswith('_'):
+                    ctx.count('dim:name-with-trailing-underscore')
                 if m['k'] == 'prop' and m.get('py_deco', 'property') != 'property':
                     ctx.count('dim:property-subclass')
                 if m['k'] in ('ann', 'annAssign') and m['t'].get('py_feature'):
